@@ -41,7 +41,7 @@ def run(ctx):
     check_case_typed(ctx, V)
     from .. import rules_tree as RT2
     ctx.rule('R13.5', 'grouping is total: no size/depth cut-off in the drivers and passes this property relies on', floor=1)
-    RT2.check_recursion_coverage(ctx, 'R13.5', only={'group_where', 'group_identifier_list', 'group_functions', 'group_comparison', 'group_typed_literal', 'group_case', 'group_parenthesis', 'group_operator'})
+    RT2.check_recursion_coverage(ctx, 'R13.5', only={'group_where', 'group_identifier_list', 'group_functions', 'group_comparison', 'group_typed_literal', 'group_case', 'group_parenthesis', 'group_operator', 'group_aliased', 'group_as', 'group_identifier'})
     RT2.check_no_cutoff(ctx, 'R13.5', only={'_group', 'group_where', 'group_identifier_list', 'group_functions', 'group_comparison', 'group_typed_literal', '_group_matching'})
     # a typed literal (and an array index) is grouped with post = (tidx, nidx) / (pidx, tidx): the neighbour on the other side is
     # only looked at.  The joining driver must not refuse to group because that neighbour is the "(" or ")" of the enclosing group.
@@ -216,10 +216,72 @@ def check_get_parameters(ctx):
         ctx.ob('R13.3', f'class:{c.name}', loc,
                f'a single argument that is a {c.name} is returned by get_parameters (as it would be inside a list)', got,
                f'`{src(calls[0])}` rejects {c.name}: f(<{c.name.lower()}>) yields no parameter although f(x, <{c.name.lower()}>) yields it')
+    check_get_parameters_sim(ctx, f, g, env)
     # multi-argument arm returns the list items
     rets = [n for n in own_nodes(f.node) if isinstance(n, ast.Return)]
     ok = any(isinstance(r.value, ast.Call) and isinstance(r.value.func, ast.Attribute) and r.value.func.attr == 'get_identifiers' for r in rets)
     ctx.ob('R13.3', 'list-arm', f'{f.mod.relpath}:{f.node.lineno}', 'for an IdentifierList argument get_parameters returns its identifiers', ok, '')
+
+
+def check_get_parameters_sim(ctx, f, g, env):
+    """f(<one argument>) decided by interpreting Function.get_parameters on the tree grouping builds for it: whatever kind of token
+    can be an item of an argument list (the `t=` / `m=` / `i=` sets of group_identifier_list: literals, names, placeholders, `*`,
+    NULL and other value keywords, and the expression groups) is also returned when it is the only argument."""
+    repo = ctx.repo
+    loc = f'{f.mod.relpath}:{f.node.lineno}'
+    fn_cls, par_cls, id_cls, il_cls = (repo.classes.get(f'sqlparse.sql.{n}') for n in ('Function', 'Parenthesis', 'Identifier', 'IdentifierList'))
+    ctx.need(all((fn_cls, par_cls, id_cls, il_cls)), 'sqlparse.sql classes not found')
+    P, NAME, WSP = TT(('Punctuation',)), TT(('Name',)), TT(('Text', 'Whitespace'))
+
+    def leaf(tt, v):
+        t_ = ME.AbsToken(repo, ttype=tt, value=v)
+        t_.parent = None
+        return t_
+
+    def group(cls, kids):
+        gr = ME.AbsToken(repo, cls=cls)
+        gr.tokens, gr.parent, gr.is_whitespace = kids, None, False
+        gr.value = ''.join(k.value for k in kids)
+        for k in kids:
+            k.parent = gr
+        return gr
+    # the leaf kinds an argument list accepts as items (group_identifier_list), written as the lexer writes them
+    sole = [('wildcard', TT(('Wildcard',)), '*'), ('placeholder', TT(('Name', 'Placeholder')), '?'), ('builtin name', TT(('Name', 'Builtin')), 'int'),
+            ('integer', TT(('Literal', 'Number', 'Integer')), '1'), ('float', TT(('Literal', 'Number', 'Float')), '1.5'),
+            ('string', TT(('Literal', 'String', 'Single')), "'s'"), ('quoted name', TT(('Literal', 'String', 'Symbol')), '"s"'),
+            ('keyword NULL', TT(('Keyword',)), 'null'), ('value keyword', TT(('Keyword',)), 'current_date')]
+    tt_list = env.get('ttypes')
+    m_role = env.get('m_role')
+    evg = ME.Evaluator(ctx, g.mod, None)
+    for label, tt, val in sole:
+        arg = leaf(tt, val)
+        # is this kind a possible list item at all? (imt with the sets of group_identifier_list)
+        try:
+            item = evg.imt(arg, None, m_role, tt_list)
+        except (ME.Unknown, ME.Unsupported):
+            item = True
+        if not item:
+            continue
+        for pad in (False, True):
+            kids = [leaf(P, '(')] + ([leaf(WSP, ' ')] if pad else []) + [arg] + ([leaf(WSP, ' ')] if pad else []) + [leaf(P, ')')]
+            fn = group(fn_cls, [group(id_cls, [leaf(NAME, 'f')]), group(par_cls, kids)])
+            ev = ME.Evaluator(ctx, f.mod, f.cls)
+            ev.effects = True        # the local result list
+            try:
+                got = ME.run_function(ev, f.node, {f.params[0]: fn}, max_steps=500)
+                got = list(got) if got is not None else None
+            except (ME.Unsupported, ME.Unknown) as e:
+                ctx.ob('R13.3', f'sole:{label}', loc, 'get_parameters evaluable', None, str(e))
+                break
+            except ME.Crash as e:
+                got = f'crash: {e}'
+            ok = isinstance(got, list) and len(got) == 1 and got[0] is arg
+            if not ok or pad:
+                ctx.ob('R13.3', f'sole:{label}' + (':padded' if pad else ''), loc,
+                       f'f({"" if not pad else " "}{val}{"" if not pad else " "}) -- a {label}, which an argument list accepts as an item -- is returned as the one parameter', ok,
+                       f'get_parameters returns {got if not isinstance(got, list) else [getattr(x, "value", x) for x in got]}: the written argument is dropped although f(x, {val}) yields it')
+                if not ok:
+                    break
 
 
 def check_case_typed(ctx, V):
